@@ -454,13 +454,16 @@ def _fixed_job(job, scratch):
                 for k in keys[:-1]:
                     d = d[k]
                 d[keys[-1]] = val
-                with open("restart_bad.toml", "wb") as f:
+                # the edited file IS restart.toml: under another name the
+                # program compares it with the restart.toml next to it and,
+                # because 0.0 == False in Python, may take that one instead
+                with open("restart.toml", "wb") as f:
                     tomli_w.dump(bad, f)
                 R.reset_globals()
                 res["reached"]["invalid_restart_rejected"] = \
                     res["reached"].get("invalid_restart_rejected", 0) + 1
                 try:
-                    got = setup_config("restart_bad.toml")
+                    got = setup_config("restart.toml")
                     outcome = "accepted" if got is not None else "none"
                 except TOMLConfigError:
                     outcome = "config-error"
@@ -476,6 +479,8 @@ def _fixed_job(job, scratch):
                         "spec": F.brief(spec)})
                 res["events"]["invalid_restart_edits"] = \
                     res["events"].get("invalid_restart_edits", 0) + 1
+            with open("restart.toml", "wb") as f:
+                tomli_w.dump(c1, f)          # the program's own file again
             with open("restart2.toml", "wb") as f:
                 tomli_w.dump(c2, f)
             c2["current"]["cstep"] = c2["current"]["cstep"]
